@@ -97,6 +97,7 @@ class Cont:
         else:
             self.raw = ih5.record_class("mf" if driver == "mf" else "ih5")(self.path, "w")
         self.mc = MetadorContainer(self.raw)
+        self.dirty = False  # True once an op succeeded on this container OBJECT (in-memory index is incremental)
 
     def reopen(self):
         from metador_core.container import MetadorContainer
@@ -107,6 +108,7 @@ class Cont:
         else:
             self.raw = ih5.record_class("mf" if self.driver == "mf" else "ih5")(self.path, "r+")
         self.mc = MetadorContainer(self.raw)
+        self.dirty = False
 
     def apply(self, op):
         """Returns 'ok' | 'fail:<Exc>' | 'timeout'."""
@@ -148,6 +150,8 @@ class Cont:
                         self.raw.create_patch()
                 else:
                     raise AssertionError(op)
+            if k not in ("R", "B"):
+                self.dirty = True
             return "ok"
         except env.StepTimeout:
             return "timeout"
@@ -369,9 +373,10 @@ def raw_canon(cont: Cont):
 
     s = UUID_RE.sub(sub, s)
     s = re.sub(r"\d+", "#", s)
-    extra = ""
+    # in-memory component: an index rebuilt from disk (fresh after open) vs. maintained incrementally
+    extra = "inc" if getattr(cont, "dirty", False) else "fresh"
     if cont.driver != "h5":
-        extra = f"{len(files)}{cont.raw._has_writable}"
+        extra += f"{len(files)}{cont.raw._has_writable}"
     return hashlib.blake2b((s + extra).encode(), digest_size=16).digest()
 
 
@@ -508,6 +513,18 @@ def expand(task):
                 cont = build(cfg, driver, hist)
                 if base_key is None:
                     base_key = raw_canon(cont)
+                if cfg.get("prime", True) and hist:
+                    # observe the state BEFORE the op as well (same object): answers given now must not
+                    # influence answers after the op (stale caches); the state itself was judged when reached
+                    try:
+                        m0 = build_model(hist, si)
+                        try:
+                            with env.watchdog(120):
+                                run_checks(cont, m0, cfg, hist[:-1], hist[-1], {"impl": "ok", "model": "ok", "prime": True})
+                        finally:
+                            m0.close()
+                    except env.StepTimeout:
+                        pass
             cont.n = len(hist)  # fresh value of this step = len(hist)+1 on both sides
             ri = cont.apply(op)
             model, rm = model_step(hist, op, si)
